@@ -124,6 +124,11 @@ type Generated struct {
 	Expr   string   `json:"expr"`
 	Stored bool     `json:"stored,omitempty"`
 	Cols   []string `json:"cols,omitempty"` // columns the expression reads (for validity of drops)
+	// Spelling selects a non-canonical spelling of the storage kind in DSL graphs: "empty" writes no kind
+	// for a VIRTUAL column (the documented meaning of an unspecified kind), "persistent" writes MariaDB's
+	// PERSISTENT for a STORED column (MySQL only). It is ignored when it does not fit Stored. The
+	// spelling carries no meaning: two columns that differ only by it are the same column.
+	Spelling string `json:"spelling,omitempty"`
 }
 
 // Identity describes a PostgreSQL identity column. Zero Start/Increment mean the default 1.
@@ -185,6 +190,7 @@ type Index struct {
 	NullsNotDist  bool     `json:"nulls_not_dist,omitempty"` // PostgreSQL NULLS NOT DISTINCT
 	Parser        string   `json:"parser,omitempty"`         // MySQL FULLTEXT parser
 	PagesPerRange int64    `json:"pages_per_range,omitempty"`
+	AutoSummarize bool     `json:"autosummarize,omitempty"` // PostgreSQL BRIN autosummarize (DSL graphs only)
 }
 
 // PrimaryKey is the ordered primary key (order may differ from column order).
@@ -608,7 +614,7 @@ func (m *Model) Validate() error {
 			if err := has(i.Include...); err != nil {
 				return err
 			}
-			if (i.Where != "") && m.Dialect == MySQL || (len(i.Include) > 0 || i.NullsNotDist || i.PagesPerRange != 0) && m.Dialect != Postgres ||
+			if (i.Where != "") && m.Dialect == MySQL || (len(i.Include) > 0 || i.NullsNotDist || i.PagesPerRange != 0 || i.AutoSummarize) && m.Dialect != Postgres ||
 				i.Parser != "" && m.Dialect != MySQL || (i.Type != "" || i.Comment != "") && m.Dialect == SQLite {
 				return fmt.Errorf("index %s.%s: attribute of another dialect", t.Name, i.Name)
 			}
